@@ -3,6 +3,7 @@
   Property theorems only.  `Spec.interp` (Spec/PathInterp.lean) is the meaning of path data.
 -/
 import PicoSVG.Proofs.PathForm
+import PicoSVG.Proofs.PathSim
 import PicoSVG.Spec.Shapes
 
 set_option linter.unusedSectionVars false
@@ -27,6 +28,37 @@ theorem explicitLines_noHV (cmds out : List (Cmd α)) (h : explicitLines cmds = 
 theorem expandShorthand_noST (cmds out : List (Cmd α)) (h : expandShorthand cmds = .ok out) :
     ∀ x ∈ out, toUpper x.1 ≠ 'S' ∧ toUpper x.1 ≠ 'T' := Path.expandShorthand_noST cmds out h
 
+end
+
+/-! #### the curve itself: simulation of the walk by the path interpretation -/
+
+section
+variable {α : Type} [Field α] [LinearOrder α] [IsStrictOrderedRing α]
+
+/-- C09 (explicit_lines): for every command sequence the specification gives a meaning to — any commands, any
+    length, relative or absolute, after a closepath or not — the rewritten sequence describes the same list of drawn
+    segments.  Proof: the walker's (current point, subpath start) and the interpreter's stay equal command by command
+    (`PathSim.applyNew_sim`, all twenty letters), and the command the callback emits draws what the original draws
+    (`PathSim.explicit_cmd_same`). -/
+theorem explicitLines_preserves_curve (cmds out : List (Cmd α)) (segs : List (Spec.Seg α))
+    (h : explicitLines cmds = .ok out) (hi : Spec.interp cmds = some segs) : Spec.interp out = some segs :=
+  PathSim.explicitLines_interp cmds out segs h hi
+
+/-- the walker's notion of "current position" is the interpreter's, for every command letter (this is what makes the
+    other rewrites' callbacks see the right point) -/
+theorem nextPos_is_current_point (ws : WalkState α) (is : Spec.IState α) (c : Char) (a : List α) (ws' : WalkState α)
+    (is' : Spec.IState α) (segs : List (Spec.Seg α))
+    (hc : c ∈ ['m', 'z', 'l', 'h', 'v', 'c', 's', 'q', 't', 'a', 'M', 'Z', 'L', 'H', 'V', 'C', 'S', 'Q', 'T', 'A'])
+    (h1 : ws.curr = is.cur) (h2 : ws.start = is.start)
+    (hw : applyNew ws (c, a) = .ok ws') (hi : Spec.stepSeg is c a = some (is', segs)) :
+    ws'.curr = is'.cur ∧ ws'.start = is'.start :=
+  let r := PathSim.applyNew_sim ws is c a ws' is' segs hc h1 h2 hw hi
+  ⟨r.1, r.2.1⟩
+
+/-- non-vacuity: a relative path with h/v after a closepath, interpreted before and after the rewrite -/
+example : Spec.interp ([('m', [1, 1]), ('h', [2]), ('v', [3]), ('z', []), ('H', [5])] : List (Cmd ℚ))
+    = Spec.interp ([('M', [1, 1]), ('l', [2, 0]), ('l', [0, 3]), ('z', []), ('L', [5, 1])] : List (Cmd ℚ)) := by
+  decide +kernel
 end
 
 /-! #### tie to the source: the generated command tables the walk is driven by -/
